@@ -339,7 +339,8 @@ def r_singleton(e, R):
                 R.check(okk, "R-SINGLETON", f"{fac.short}: the recursion passes the new arguments", fac.short, norm(c)[:70],
                         "the replacement is built from other arguments than the requested ones", e.loc(fac, c))
     # reuse branch resizes to the requested size
-    rz = [n for n in g.nodes for c in calls_in(n) if any(q.endswith("._resize") for q in e.callees_of(c))]
+    rzq = resize_func(e).qualname
+    rz = [n for n in g.nodes for c in calls_in(n) if rzq in e.callees_of(c)]
     ok = bool(rz) and all(any(g.on_branch(n, t, "F") for t in g.nodes if t.kind == "test" and g.dominates(t, n)) for n in rz)
     R.check(bool(rz), "R-SINGLETON", f"{fac.short}: a reused executor is resized to the requested max_workers", fac.short, "executor._resize(max_workers)",
             "a reused executor keeps its old size", e.loc(fac, fac.node))
